@@ -106,7 +106,8 @@ def run(tag, checks, tier="quick"):
         for c in checks:
             t = time.time()
             rc, out = sh(f"{env_prefix}bin/check {c} {tier}", cwd="/verif", timeout=7200)
-            results[c] = {"rc": rc, "wall": round(time.time() - t, 1), "lines": [l for l in out.splitlines() if l.startswith(("VIOLATION", "KNOWN", "INFRA", "  {"))][:6]}
+            results[c] = {"rc": rc, "wall": round(time.time() - t, 1), "lines": ([l for l in out.splitlines() if l.startswith(("VIOLATION", "INFRA", "  {"))][:6] + [l[:160] for l in out.splitlines() if l.startswith("KNOWN")][:4]),
+                          "tail": out[-2500:] if rc not in (0, 1) else ""}
     finally:
         if use_wt:
             sh(f"git -C /repo worktree remove --force {wt}")
